@@ -411,6 +411,14 @@ def main():
         red = IntervalSet([(ord(ch), ord(ch)) for ch in DIRECTIVE_ALPHABET])
         for n in range(3, b["directive"] + 1):
             jobs.append((make_job(Lmod, SymBase(n, name="c", minlen=n, alphabet=red), f"directive/{n}", first_char="#"), n))
+        # keyword vs identifier for words longer than the general window: the window holds only identifier characters
+        # (first one not a digit), so the one token is an identifier or a keyword of up to 16 characters
+        # (the longest keyword, _Static_assert, has 14); the paths are the entries of the live keyword table
+        import string
+
+        word = IntervalSet([(ord(ch), ord(ch)) for ch in string.ascii_letters + string.digits + "_$"])
+        for n in range(b["window"] + 1, 17):
+            jobs.append((make_job(Lmod, SymBase(n, name="c", minlen=n, alphabet=word), f"word/{n}", first_char=string.ascii_letters + "_$"), n))
         # progress after errors on directive lines (steps are not cut at the first error here)
         for n in range(2, min(7, b["directive"]) + 1):
             jobs.append((make_job(Lmod, SymBase(n, name="c", minlen=n, alphabet=red), f"directive-errors/{n}", stop_at_error=False, first_char="#"), n))
